@@ -26,6 +26,8 @@ type Program struct {
 	Gas       uint64
 	WarmAddrs []common.Address
 	WarmSlots []common.Hash // of To
+	Limit     int           // events to record when more than the recorder's default are needed
+	Forks     []string      // run on exactly these forks (those of them the plan contains)
 	AllForks  bool          // run on every fork of the plan (fork-dependent gas rules), not on one in rotation
 }
 
@@ -971,6 +973,17 @@ func nestPrograms() []*Program {
 			p.Input = []byte{0}
 			out = append(out, p)
 		}
+	}
+	// self-recursion with all the gas: before EIP-150 the 1024-frame depth limit is reached (the 1025th attempt is refused up front),
+	// afterwards the gas runs out around depth 900
+	{
+		c := &code{}
+		c.pushN(0).pushN(0).pushN(0).pushN(0).pushN(0).op(0x30).pushN(512).op(0x5a, 0x03, 0xf1, 0x50, 0x00) // gas operand = GAS - 512: before EIP-150 asking for more than is left fails
+		p := base("nest:depthlimit", c.b)
+		p.Gas = 2_000_000_000
+		p.Limit = 14000
+		p.Forks = []string{"Frontier", "London"}
+		out = append(out, p)
 	}
 	for _, k1 := range kinds {
 		for _, k2 := range kinds[:3] {
